@@ -55,7 +55,9 @@ def _near(body, target):
 
 
 BODIES = {'good': GOOD, 'corrupt_near': _near(CORRUPT, GOOD), 'corrupt': CORRUPT, 'truncated': GOOD[:-10], 'empty': b'', 'big_good': BIG,
-          'big_corrupt': BIG[:-1] + b'X'}
+          'big_corrupt': BIG[:-1] + b'X',
+          # the published bytes with every line feed turned into CR LF (what a text-mode transfer does to a file)
+          'crlf': GOOD.replace(b'\n', b'\r\n')}
 
 
 class State(object):
@@ -271,6 +273,10 @@ def run_shard(desc, ctx):
     for dd in (['corrupt', 'corrupt'], ['corrupt', 'good'], ['good'], ['corrupt', 'corrupt', 'good']):
         for pr in ('absent', 'corrupt'):
             extra.append({'data': dd, 'md5': 'correct', 'prior': pr, 'good': 'good', 'head': 'ok', 'last_modified': True})
+    # a corruption that only changes line ends (LF -> CR LF): another file, another MD5
+    for dd in (['crlf', 'crlf'], ['crlf', 'good'], ['crlf'], ['good'], ['404']):
+        for pr in ('absent', 'crlf', 'valid'):
+            extra.append({'data': dd, 'md5': 'correct', 'prior': pr, 'good': 'good', 'head': 'ok'})
     # gateway errors (502 / 503) are HTTP errors like any other; servers that honour Range requests
     for dd in (['503'], ['502'], ['corrupt', '503'], ['good'], ['corrupt', 'good'], ['corrupt', 'corrupt']):
         for pr in ('absent', 'valid', 'corrupt'):
@@ -330,7 +336,7 @@ def expected(case):
         return BODIES[body_kind] == BODIES[good] if body_kind in BODIES else False
     data = list(case['data'])
     prior = case['prior']
-    prior_kind = {'valid': good, 'corrupt': 'corrupt', 'empty': 'empty'}.get(prior)
+    prior_kind = {'valid': good, 'corrupt': 'corrupt', 'empty': 'empty', 'crlf': 'crlf'}.get(prior)
     verified_all = True
     if prior != 'absent':
         v = verify(prior_kind)
@@ -396,7 +402,7 @@ def run_case(case, ctx, shared=None):
         os.symlink(os.path.join(d, 'real', 'sub'), os.path.join(d, 'link'))
         out = os.path.join(d, 'link', '..', 'file.bin')
     good = case['good']
-    prior_bytes = {'absent': None, 'valid': BODIES[good], 'corrupt': CORRUPT + b'x', 'empty': b''}[case['prior']]
+    prior_bytes = {'absent': None, 'valid': BODIES[good], 'corrupt': CORRUPT + b'x', 'empty': b'', 'crlf': BODIES['crlf']}[case['prior']]
     if shared is not None:
         prior_bytes = open(out, 'rb').read() if os.path.exists(out) else None     # state left by the previous step
     elif prior_bytes is not None:
@@ -434,7 +440,8 @@ def run_case(case, ctx, shared=None):
     with State.lock:
         log0 = len(State.log)
     try:
-        r = call(download_file, url, out)
+        from pathlib import Path
+        r = call(download_file, url, Path(out) if _COUNTER[0] % 2 else out)          # the target as a str or a Path
         served = list(sc['served'])
         md5_served = list(sc['md5_served'])
         ctx.mon('M5.data_get', len(served))
